@@ -710,7 +710,7 @@ func c08Spec(r *rng.R, i int) *crSpec {
 }
 
 func runC08(c *Ctx) {
-	c.Res.Rule = "per workload (80 marker batches incl. large-batch writes, explicit transactions - discarded after a failed Commit, as documented - and CompactRange; tiny buffers; background work settles between client calls so that operation order repeats): a fault-free run records every storage operation as (kind x file type x client call in progress), then the workload is re-run once per fault plan: the k-th operation of a (kind, type) fails, without effect or with effect (bytes written / file synced / created / removed / CURRENT set although an error is returned), singly, as a burst of 2-5 consecutive failures, or as a sampled pair, or combined with removes of one file type that keep failing; phase run = armed after Open, phase reopen = armed during a reopen of the populated DB. Quick takes the first, the last and a random position of every (kind, type, call) class, thorough all positions. The DB is used on after the fault (writes, transactions, CompactRange, scan + Gets every 10 batches), closed, and a Clone is reopened without faults. Oracles at every read and after the reopen: contents = exactly the batches whose markers are present, applied in issue order; present only batches that were issued; every batch whose call returned nil present (in the run and after the reopen); reads may fail but never return a value that disagrees; every call under a 20 s watchdog. One evaluation = one faulted run; non-trivial = at least one fault fired; distinct by fault plan. Before those: compactions retried after one failing table Sync on a three-level tree with deletion markers (contents = plain map, also after reopen), and concurrent writers whose merged group is hit by a journal Sync failing with effect (every write acknowledged before or after is there after Close and reopen). Part 2 (damaged data, default checksum options): one byte flipped in a table data block or a journal chunk of a settled closed DB: every Get returns the right value or an error, scans return only right pairs (all of them when no error is reported); journal damage may drop whole batches only. " + c08OptNote
+	c.Res.Rule = "per workload (80 marker batches incl. large-batch writes, explicit transactions - discarded after a failed Commit, as documented - and CompactRange; tiny buffers; background work settles between client calls so that operation order repeats): a fault-free run records every storage operation as (kind x file type x client call in progress), then the workload is re-run once per fault plan: the k-th operation of a (kind, type) fails, without effect or with effect (bytes written / file synced / created / removed / CURRENT set although an error is returned), singly, as a burst of 2-5 consecutive failures, or as a sampled pair, or combined with removes of one file type that keep failing; phase run = armed after Open, phase reopen = armed during a reopen of the populated DB. Quick takes the first, the last and a random position of every (kind, type, call) class, thorough all positions. The DB is used on after the fault (writes, transactions, CompactRange, scan + Gets every 10 batches), closed, and a Clone is reopened without faults. Oracles at every read and after the reopen: contents = exactly the batches whose markers are present, applied in issue order; present only batches that were issued; every batch whose call returned nil present (in the run and after the reopen); reads may fail but never return a value that disagrees; every call under a 20 s watchdog. One evaluation = one faulted run; non-trivial = at least one fault fired; distinct by fault plan. Before those: compactions retried after one failing table Sync on a three-level tree with deletion markers (contents = plain map, also after reopen), and concurrent writers whose merged group is hit by a journal Sync failing with effect (every write acknowledged before or after is there after Close and reopen). Part 2 (damaged data, default checksum options): one byte flipped in a table data block or a journal chunk of a settled closed DB: every Get returns the right value or an error; DB iterators answer like the specification cursor over the undamaged contents until they report an error, which then ends them for good (GoLevel.C02.strict_error_is_reported_db): a forward scan shows a gapless prefix of the sorted pairs, a backward scan (Last, Prev, …) a gapless prefix of the reversed list, Seek(k) and Seek(k)+Prev land where the cursor lands, complete when no error is reported; plus the layout of defect D40 built on purpose (journal-recovery table in which the newer version of the last key — deletion or overwrite — ends the damaged block and the older value starts the next: Last() / Seek-beyond+Prev must report the damage, not serve the old value); journal damage may drop whole batches only. " + c08OptNote
 	if !crIsWorker() {
 		crIsolated(c, c08OnCrash)
 		return
@@ -978,6 +978,11 @@ func c08Damage(c *Ctx, once *crSigOnce) {
 		}(i, r)
 	}
 	wg.Wait()
+	// the layout of defect D40 (backward iteration over a damaged block that holds the newer version of a key)
+	for v := 0; v < c.Scale(4, 40); v++ {
+		r := c.R.Fork()
+		c.Guard("damage:panic", 1<<20+v, func() { c08DamageD40(c, once, r, v) })
+	}
 }
 
 func c08DamageOne(c *Ctx, once *crSigOnce, r *rng.R, i int) {
@@ -1130,6 +1135,19 @@ func c08DamageOne(c *Ctx, once *crSigOnce, r *rng.R, i int) {
 		}
 		if serr == nil && len(got) != len(expected) {
 			once.report(c, "damage:table-data-block:scan-silently-incomplete", fmt.Sprintf("%s: scan without error returned %d of %d pairs", when, len(got), len(expected)), dc)
+			return false
+		}
+		// the iterator oracle (c08scan.go): forward and backward scans are gapless prefixes, Seek / Seek+Prev land
+		// where the cursor over the undamaged contents lands, an error ends the iterator for good
+		okScan := true
+		if _, hung := crCall(crWdTimeout, func() error {
+			okScan = c08ScanOracle(c, once, db2, expected, o.GetComparer().Compare, r, "damage:table-data-block", when, dc)
+			return nil
+		}); hung {
+			once.report(c, "damage:table-data-block:iter:hang", when+": the iterator oracle did not return within 20 s", dc)
+			return false
+		}
+		if !okScan {
 			return false
 		}
 		switch {
